@@ -873,7 +873,8 @@ func (cl *collector) define(v ssa.Value, depth int) {
 			}
 		}
 	case *ssa.Parameter:
-		cl.g7ParamLower(x, t) // ip_g7.go: 0 <= parameter when that holds at every call site
+		cl.g7ParamLower(x, t)     // ip_g7.go: 0 <= parameter when that holds at every call site
+		cl.h1SortIndexParam(x, t) // ip_h1r3.go: index parameters of the less function of sort.Slice/SliceStable
 	case *ssa.Extract:
 		if call, ok := x.Tuple.(*ssa.Call); ok {
 			cl.g7CallFacts(x, call, x.Index, t, depth)
